@@ -849,6 +849,9 @@ def check_gen(c, t_list, u1, u2, v, no_new=False):
     try:
         r = run_gen_real(c, t_list, u1, u2, no_new)
     except Exception as e:  # noqa
+        from mc import core
+        if core.raised_in_harness(e):
+            raise           # the stub call does not fit this tree's private parameter lists: not decided, not a finding
         v({"kind": "gen-raises", "group": c["group"], "exc": type(e).__name__}, case, "%s: %s" % (type(e).__name__, e))
         return 0
     if not t_list:
